@@ -23,7 +23,7 @@ import (
 func init() {
 	Registry["C12"] = &Check{
 		Scenarios: c12Scenarios,
-		Rule: "the application registers an RAA handler and, when the library watchdog is off, its own DWA handler; application answers delivered after the handshake alternate between DWA and RAA. success CEAs that also list Inband-Security-Id [1, 0] or [1] count as success. peer scripts: MaxRetransmits R in {0,1,2} (thorough 0..3); for the k-th CER received the peer does one of {nothing, success CEA, failing CEA 5010, CEA without Origin-Host, CEA without Result-Code, success CEA without any application, success CEA with an unsupported application, success CEA whose only application information is a Vendor-Specific-Application-Id group {Vendor-Id, unsupported id} / {Vendor-Id} / {Vendor-Id, supported id}, disconnect} after a delay in {0, 1/2, 1, 3/2} RetransmitInterval on the virtual clock; scenarios in which the transport takes 1/2 or 3/2 interval to accept a CER (slow writes); quick: every script with one answering CER index, thorough: also every script with two answering indexes; after a success every set of extras from {duplicate success CEA, late failing CEA, RAA, both a CEA and an RAA}. Every schedule of client goroutines, reader, timers and peer steps up to preemption bound 2 (quick) / unbounded (thorough); timers that are due may fire at any later step, so every tie ordering is explored. Eight scenarios go through the library's own dial entry points (sm.Client.DialTimeout and DialTLSTimeout; the instrumented dialer hands out an in-memory connection, deadlines run on the virtual clock, the TLS variant has a real crypto/tls server as peer): dial timeout {none, shorter than the handshake, shorter than the idle period, generous}, success CEA to the last permitted CER, an idle period, then a duplicate CEA and an answer for the application.",
+		Rule: "no host address configured (nil, and an empty non-nil list): the CER carries the connection's local address; the application registers an RAA handler and, when the library watchdog is off, its own DWA handler; application answers delivered after the handshake alternate between DWA and RAA. success CEAs that also list Inband-Security-Id [1, 0] or [1] count as success. peer scripts: MaxRetransmits R in {0,1,2} (thorough 0..3); for the k-th CER received the peer does one of {nothing, success CEA, failing CEA 5010, CEA without Origin-Host, CEA without Result-Code, success CEA without any application, success CEA with an unsupported application, success CEA whose only application information is a Vendor-Specific-Application-Id group {Vendor-Id, unsupported id} / {Vendor-Id} / {Vendor-Id, supported id}, disconnect} after a delay in {0, 1/2, 1, 3/2} RetransmitInterval on the virtual clock; scenarios in which the transport takes 1/2 or 3/2 interval to accept a CER (slow writes); quick: every script with one answering CER index, thorough: also every script with two answering indexes; after a success every set of extras from {duplicate success CEA, late failing CEA, RAA, both a CEA and an RAA}. Every schedule of client goroutines, reader, timers and peer steps up to preemption bound 2 (quick) / unbounded (thorough); timers that are due may fire at any later step, so every tie ordering is explored. Eight scenarios go through the library's own dial entry points (sm.Client.DialTimeout and DialTLSTimeout; the instrumented dialer hands out an in-memory connection, deadlines run on the virtual clock, the TLS variant has a real crypto/tls server as peer): dial timeout {none, shorter than the handshake, shorter than the idle period, generous}, success CEA to the last permitted CER, an idle period, then a duplicate CEA and an answer for the application.",
 		Assume: []string{"virtual time: writes and computation take no time; lateness exists only where the peer script introduces it", "data-race freedom between visible operations (audited separately with -race)"},
 		QuickBudget: 150, ThoroughBudget: 2400,
 	}
@@ -131,6 +131,11 @@ func c12Scenarios(tier string) []*Scenario {
 			la := c12Scenario(R, sc, []string{"raa"}, bound)
 			la.Name += "/local-address"
 			out = append(out, la)
+			c12EmptyAddrList = true
+			la = c12Scenario(R, sc, []string{"raa"}, bound)
+			la.Name += "/local-address/empty-list"
+			out = append(out, la)
+			c12EmptyAddrList = false
 			c12LocalAddr = false
 			// the same with the watchdog enabled and a peer that answers every DWR
 			c12Watchdog = true
@@ -201,12 +206,16 @@ func c12Scenario(R int, script []c12Act, extras []string, bound int) *Scenario {
 // c12LocalAddr: no HostIPAddresses configured - the CER must carry the connection's local address.
 var c12LocalAddr = false
 
+// c12EmptyAddrList (with c12LocalAddr): "none configured" is an empty, non-nil list
+var c12EmptyAddrList = false
+
 // c12Watchdog: the client has its watchdog enabled (interval = 2 handshake intervals); the peer
 // answers every DWR. After a successful handshake the connection must still be open at the horizon.
 var c12Watchdog = false
 
 func c12ScenarioSlow(R int, script []c12Act, extras []string, bound int, slow []time.Duration) *Scenario {
 	localAddr := c12LocalAddr
+	emptyList := c12EmptyAddrList
 	watchdog := c12Watchdog
 	body := func() {
 		st := &c12State{}
@@ -219,6 +228,10 @@ func c12ScenarioSlow(R int, script []c12Act, extras []string, bound int, slow []
 			HostIPAddresses: []datatype.Address{datatype.Address(net.ParseIP("10.0.0.2")), datatype.Address(net.ParseIP("10.0.0.3"))}}
 		if localAddr {
 			settings.HostIPAddresses = nil
+			if emptyList {
+				// "none configured" spelled as an empty list (an empty JSON array, a list filtered down to nothing)
+				settings.HostIPAddresses = make([]datatype.Address, 0, 4)
+			}
 			settings.OriginStateID = 77
 		}
 		st.localAddr = localAddr
